@@ -27,6 +27,7 @@ def specs_for(tier, seed):
 
 
 def bounded(report, tier, seed):
+    known_opt = []
     specs = specs_for(tier, seed)
     res = e2e.sweep(specs)
     keys = set()
@@ -39,14 +40,21 @@ def bounded(report, tier, seed):
             keys.add(r["key"])
             nontrivial += 1 if r["nontrivial"] else 0
         mm = [m for m in r["mismatches"] if m["kind"] in KINDS]
-        if mm:
+        if mm and r.get("known_multistore"):
+            # the recorded optimiser finding (known_findings O3.4), attributed exactly by e2e.repaired_optimizer
+            known_opt.append({"input": {"spec": s}, "mismatches": mm[:2], "teal": r["teals"]})
+        elif mm:
             fails.append({"input": {"spec": s}, "mismatches": mm[:3], "program": r.get("program"),
                           "teal": r["teals"]})
     report.bounded.append(Bounded(
         function="pyteal.compileTeal on generated programs with subroutines / recursion, executed on the spec AVM",
         contract="observable outcome == direct evaluation of the program description (function-call semantics: fresh locals per activation)",
         bound=f"{len(specs)} generated programs (seed {seed}), versions 4..10, default / frame_pointers=False / scratch_slots toggled, 2 contexts",
-        cases=ran, distinct_nontrivial=nontrivial, failures=len(fails)))
+        cases=ran, distinct_nontrivial=nontrivial, failures=len(fails) + len(known_opt)))
+    if known_opt:
+        k = known_opt[0]
+        report.violation(Violation(key="O3.4:store-elsewhere+adjacent-store-load", what="with the slot optimiser on, a multiply-stored slot is removed and the program computes something else: " + k["mismatches"][0]["what"][:200],
+                                   replay=k, confirmed_native=True))
     return fails
 
 
